@@ -5,7 +5,7 @@
    Gaussian theorems carry its derivative as a premise. *)
 From Coq Require Import Reals ZArith List Bool Lra Lia.
 From Coquelicot Require Import Coquelicot.
-From Sky Require Import Result Num NumR G_flux M_Flux S_Flux P_Flux P_FluxInt P_FluxObj P_FluxStore P_FluxDeep.
+From Sky Require Import Result Num NumR G_flux M_Flux S_Flux P_Flux P_FluxInt P_FluxObj P_FluxStore P_FluxDeep P_FluxRv.
 Import ListNotations.
 Open Scope R_scope.
 
@@ -410,6 +410,39 @@ Example C13_ex_oracle : forall (erfR : R -> R),
 Proof.
   intros erfR.
   apply (proj1 (C13_numeric_int erfR (fun f a b => RInt f a b) (fun f a b _ => eq_refl))); lra.
+Qed.
+
+(* ================================================================ extension: utils/flux_model.py *)
+(* create_scipy_stats_rv_continuous_from_TimeFluxProfile: pdf(t) = profile(t) * norm with
+   norm = 1 / get_total_integral (0 when the total is 0) — kernels rv_has_norm, rv_norm, rv_pdf *)
+Theorem C13_rv_pdf : forall (erfR : R -> R) p t,
+  rv_pdf_of (RNum erfR) p t
+    = t_call (RNum erfR) p None t * (if Req_EM_T (t_total (RNum erfR) p) 0 then 0 else 1 / t_total (RNum erfR) p)
+  /\ (t_total (RNum erfR) p = 0 -> rv_pdf_of (RNum erfR) p t = 0).
+Proof. intros erfR p t. exact (conj (rv_pdf_value erfR p t) (rv_zero_total erfR p t)). Qed.
+Print Assumptions C13_rv_pdf.
+
+(* the density of a box profile is non-negative, 1/tw on the support and integrates to 1 *)
+Theorem C13_rv_box_normalised : forall (erfR : R -> R) tu ts te, ts < te ->
+  is_RInt (rv_pdf_of (RNum erfR) (Box tu ts te)) ts te 1
+  /\ (forall t, 0 <= rv_pdf_of (RNum erfR) (Box tu ts te) t)
+  /\ (forall t, ts <= t <= te -> rv_pdf_of (RNum erfR) (Box tu ts te) t = 1 / (te - ts)).
+Proof. exact rv_box_normalised. Qed.
+Print Assumptions C13_rv_box_normalised.
+
+(* the density of a Gaussian profile integrates to 1 over its support window (erf' premise) *)
+Theorem C13_rv_gauss_normalised : forall (erfR : R -> R),
+  (forall x, is_derive erfR x (2 / sqrt PI * exp (- (x * x)))) ->
+  forall tu ts te sg tol, 0 < sg -> ts < te ->
+  is_RInt (rv_pdf_of (RNum erfR) (Gauss tu ts te sg tol)) ts te 1.
+Proof. exact rv_gauss_normalised. Qed.
+Print Assumptions C13_rv_gauss_normalised.
+
+Example C13_ex_rv : forall (erfR : R -> R),
+  is_RInt (rv_pdf_of (RNum erfR) (Box 0 4 6)) 4 6 1 /\ rv_pdf_of (RNum erfR) (Box 0 4 6) 5 = 1 / (6 - 4).
+Proof.
+  intros erfR. destruct (C13_rv_box_normalised erfR 0%Z 4 6 ltac:(lra)) as (A & _ & C).
+  split; [exact A|apply C; lra].
 Qed.
 
 (* the quadrature contract is satisfiable (RInt itself), the cut-off guards are satisfiable *)
